@@ -35,6 +35,16 @@ CHECKS = {
         note='Lean kernel + standard axioms; tools/tr_tables.py + clang AST; Model/VConvert.lean hand-written, tied by correspondence; numeric conversions are C04; '
              'in-place == out-of-place is checked on runs (digest equality), not yet a theorem.',
         ref='DESIGN.md §6 C05'),
+    'C10': dict(
+        technique='Lean 4 proof over an ordered field on a hand model of the interpolators + correspondence run on doubles + knot/hint/linearity oracles',
+        text='Theorems for every knot vector, every n >= 1, every hint and every query: the rfi segment search returns a segment that bounds x, '
+             'rfi returns the supplied value at every supplied point and its value is independent of the hint (query order); the cubic spline '
+             'returns the supplied values at all knots for any number of segments (incl. one) and reproduces linear data exactly everywhere; the '
+             'range predicate refuses a >= 5% shortfall at either end and accepts full coverage. Model and compiled C are compared on doubles; '
+             'knot exactness and hint independence are checked bit-exactly on the C.',
+        note='Lean kernel + standard axioms; Model/Interp.lean hand-written (Bulirsch-Stoer arithmetic is a parameter of the theorems; reproduction of rational '
+             'functions between knots is sampled only); range checks at the four call sites are exercised through the calibration harness.',
+        ref='DESIGN.md §6 C10'),
 }
 PENDING = {}
 ALL = ['C%02d' % i for i in range(1, 21)]
